@@ -149,3 +149,33 @@ Fixpoint zlist_eqb (a b : list Z) : bool :=
   | x :: a', y :: b' => (x =? y)%Z && zlist_eqb a' b'
   | _, _ => false
   end.
+
+(** harness helper: catalogue strings are shipped as UTF-8 string literals and decoded to code points *)
+Fixpoint bytes_of (s : String.string) : list Z :=
+  match s with
+  | String.EmptyString => []
+  | String.String a r => Z.of_N (Ascii.N_of_ascii a) :: bytes_of r
+  end.
+Fixpoint utf8_dec (l : list Z) : list Z :=
+  match l with
+  | [] => []
+  | b :: r =>
+      if (b <? 128)%Z then b :: utf8_dec r
+      else if (b <? 224)%Z then
+        match r with
+        | c1 :: r1 => ((b - 192) * 64 + (c1 - 128))%Z :: utf8_dec r1
+        | _ => [b]
+        end
+      else if (b <? 240)%Z then
+        match r with
+        | c1 :: c2 :: r2 => ((b - 224) * 4096 + (c1 - 128) * 64 + (c2 - 128))%Z :: utf8_dec r2
+        | _ => [b]
+        end
+      else
+        match r with
+        | c1 :: c2 :: c3 :: r3 =>
+            ((b - 240) * 262144 + (c1 - 128) * 4096 + (c2 - 128) * 64 + (c3 - 128))%Z :: utf8_dec r3
+        | _ => [b]
+        end
+  end.
+Definition u8 (s : String.string) : str := utf8_dec (bytes_of s).
